@@ -39,7 +39,7 @@ class FuncId:
         return hash((self.rel, self.qual))
 
     def __eq__(self, o):
-        return (self.rel, self.qual) == (o.rel, o.qual)
+        return isinstance(o, FuncId) and (self.rel, self.qual) == (o.rel, o.qual)
 
     def __repr__(self):
         return f"{self.rel}:{self.qual}"
